@@ -76,6 +76,7 @@ macro_rules! app_shape {
         #[kani::proof]
         #[kani::unwind(36)]
         #[kani::stub(crate::linux::ptrace_dumper::PtraceDumper::copy_from_process, crate::verif::env::stub_copy_from_process)]
+        #[kani::stub(nix::sys::uio::process_vm_readv, crate::verif::env::stub_process_vm_readv_log)]
         #[kani::stub(std::fmt::format, crate::verif::env::stub_format)]
         fn $name() {
             app::<$n>($lens, false);
@@ -88,11 +89,13 @@ app_shape!(c07_app_len7_len9, 2, [7, 9]);
 app_shape!(c07_app_len8_len16, 2, [8, 16]);
 app_shape!(c07_app_len32, 1, [32]);
 app_shape!(c07_app_three, 3, [3, 1, 5]);
+app_shape!(c07_app_len16_len4, 2, [16, 4]);
 
 /// A failing read of an application region is a hard error (nothing is fabricated)
 #[kani::proof]
 #[kani::unwind(36)]
 #[kani::stub(crate::linux::ptrace_dumper::PtraceDumper::copy_from_process, crate::verif::env::stub_copy_from_process)]
+#[kani::stub(nix::sys::uio::process_vm_readv, crate::verif::env::stub_process_vm_readv_log)]
 #[kani::stub(std::fmt::format, crate::verif::env::stub_format)]
 fn c07_app_read_fails() {
     env::copy_reset(env::SERVE_MAX, 1);
